@@ -45,14 +45,33 @@ fn main() {
     let mut first: Option<(i32, String)> = None;
     // candidates: the solver's input; then (if tries > 0) every single word replaced by a
     // boundary value; then seeded random 1..3-word mutations
-    const INTERESTING: [u64; 12] = [0, 1, 2, 3, 4, 5, 8, 16, 32, 64, u64::MAX, 1 << 63];
+    const INTERESTING: [u64; 18] = [0, 1, 2, 3, 4, 5, 7, 8, 16, 32, 64, 127, 128, 129, 192, 255, u64::MAX, 1 << 63];
     let sweep = if tries > 0 { len * INTERESTING.len() } else { 0 };
-    for t in 0..=(tries as usize + sweep) {
+    // short inputs: also every PAIR of words replaced by boundary values
+    let npairs = if tries > 0 && len >= 2 && len <= 6 { len * (len - 1) / 2 } else { 0 };
+    let pair_sweep = npairs * INTERESTING.len() * INTERESTING.len();
+    for t in 0..=(tries as usize + sweep + pair_sweep) {
         let mut b = bytes.clone();
         if t > 0 && t <= sweep {
             let k = t - 1;
             b[k / INTERESTING.len()] = INTERESTING[k % INTERESTING.len()];
-        } else if t > sweep && len > 0 {
+        } else if t > sweep && t <= sweep + pair_sweep {
+            let k = t - sweep - 1;
+            let n2 = INTERESTING.len() * INTERESTING.len();
+            let (mut pi, mut pj, mut cnt) = (0usize, 1usize, 0usize);
+            'outer: for i0 in 0..len {
+                for j0 in (i0 + 1)..len {
+                    if cnt == k / n2 {
+                        pi = i0;
+                        pj = j0;
+                        break 'outer;
+                    }
+                    cnt += 1;
+                }
+            }
+            b[pi] = INTERESTING[(k % n2) / INTERESTING.len()];
+            b[pj] = INTERESTING[(k % n2) % INTERESTING.len()];
+        } else if t > sweep + pair_sweep && len > 0 {
             let k = 1 + (next() % 3) as usize;
             for _ in 0..k {
                 let pos = (next() % len as u64) as usize;
